@@ -27,23 +27,70 @@ def tcmp(T, op, a, b):
     return cmp_term(op, a, b)
 
 
-def null_atoms(path, who):
-    """decisions of the path about `who`.val != null"""
-    out = []
+def is_fp(T):
+    return rint.clean(T) in ("float", "double")
+
+
+def is_nan(v):
+    return isinstance(v, Lin) and any(a[0] == "call" and "quiet_NaN" in str(a[1]) for a in v.atoms())
+
+
+def null_of(lib, D):
+    f = lib.method(D, "null_value", nparams=0)
+    if f is None:
+        return None
+    return lib.summary(f).live[0].ret
+
+
+def decision(path, term):
+    """was `term` decided on the path (True / False), or not at all (None)?"""
+    term = lin(term)
+    if term.is_const():
+        return bool(term.k)
+    neg = negate_cond(term)
     for c, taken in path.pc:
-        cl = lin(c)
-        if len(cl.terms) == 1 and cl.terms[0][0][0] == "fcmp":
-            a = cl.terms[0][0]
-            names = [x[1] for x in a[2].atoms() + a[3].atoms() if x[0] == "sym"]
-            if any(n.startswith(who + ".val") for n in names) and a[1] in ("!=", "=="):
-                out.append(taken if a[1] == "!=" else not taken)
-            continue
-        for op, f in conjuncts(c):
-            names = [a[1] for a in f.atoms() if a[0] == "sym"]
-            if any(n.startswith(who + ".val") for n in names) and op in ("!=", "=="):
-                has = taken if op == "!=" else not taken
-                out.append(has)
-    return out
+        c = lin(c)
+        if c == term:
+            return taken
+        if c == neg:
+            return not taken
+    return None
+
+
+def presence(path, who, T, nullv):
+    """documented presence of the operand on this path: has a value iff the raw value is not the null value, where a
+    NaN null value is matched by any NaN (NaN never equals itself).  None = the path does not depend on it."""
+    v = sym(who + ".val")
+    e = decision(path, tcmp(T, "==", v, nullv))
+    if e is True:
+        return False
+    if e is None:
+        return None
+    if not is_fp(T):
+        return True
+    n1 = decision(path, fcmp_term("!=", v, v))
+    if is_nan(nullv):
+        n2 = True          # NaN != NaN (the compiler folds this constant expression)
+    else:
+        n2 = decision(path, fcmp_term("!=", nullv, nullv))
+    if n1 is False or n2 is False:
+        return True
+    if n1 is True and n2 is True:
+        return False
+    return None
+
+
+def null_atoms(path, who, T=None, nullv=None):
+    p = presence(path, who, T, nullv)
+    return [] if p is None else [p]
+
+
+def td_of(param_t):
+    inner = param_t.split("optional_base<")[1]
+    T = inner.split(",")[0].strip()
+    D = inner.split(",", 1)[1].strip()
+    D = D[:D.rindex(">")].strip() if ">" in D else D
+    return T, D
 
 
 def check(chk, lib):
@@ -53,7 +100,11 @@ def check(chk, lib):
             ps = f.get("params") or []
             if len(ps) != 2 or "optional_base" not in ps[0]["t"]:
                 continue
-            T = ps[0]["t"].split("optional_base<")[1].split(",")[0]
+            T, D = td_of(ps[0]["t"])
+            nullv = null_of(lib, D)
+            if nullv is None:
+                chk.broke("null_value of %s not found" % D)
+                continue
             key = "opt%s<%s>" % (op, T)
             try:
                 s = lib.summary(f)
@@ -62,7 +113,7 @@ def check(chk, lib):
                 continue
             errs = []
             for p in s.live:
-                Ls, Rs = null_atoms(p, "lhs"), null_atoms(p, "rhs")
+                Ls, Rs = null_atoms(p, "lhs", T, nullv), null_atoms(p, "rhs", T, nullv)
                 for L in (True, False):
                     for R in (True, False):
                         if any(x != L for x in Ls) or any(x != R for x in Rs):
@@ -91,48 +142,89 @@ def check(chk, lib):
             if len(ps) != 2 or not ("optional_base" in ps[0]["t"] or "required_base" in ps[0]["t"]):
                 continue
             s = lib.summary(f)
-            p = s.live[0]
             T = ps[0]["t"].split("_base<")[1].split(",")[0]
             w = tcmp(T, op, sym("lhs.val"), sym("rhs.val"))
             n += 1
-            if len(s.live) != 1 or p.ret is None or lin(p.ret) != w:
-                chk.violation("OPT.eq", "operator" + op, where(f), "operator%s on %s returns %s, expected raw value comparison %s"
-                              % (op, ps[0]["t"][:60], show(p.ret), show(w)))
+            if "required_base" in ps[0]["t"]:
+                p = s.live[0]
+                if len(s.live) != 1 or p.ret is None or lin(p.ret) != w:
+                    chk.violation("OPT.eq", "operator" + op, where(f), "operator%s on %s returns %s, expected raw value comparison %s"
+                                  % (op, ps[0]["t"][:60], show(p.ret), show(w)))
+                else:
+                    chk.ok("OPT.eq", "eq%s<%s>@%s" % (op, T, lib.label.split()[1]), {"function": f["qn"][:100]})
+                continue
+            # optional: values are compared only when both are present; otherwise equal iff both are null
+            T, D = td_of(ps[0]["t"])
+            nullv = null_of(lib, D)
+            if nullv is None:
+                chk.broke("null_value of %s not found" % D)
+                continue
+            errs = []
+            for p in s.live:
+                Ls, Rs = null_atoms(p, "lhs", T, nullv), null_atoms(p, "rhs", T, nullv)
+                g = lin(p.ret) if p.ret is not None else None
+                if not Ls and not Rs and g == w and not is_nan(nullv):
+                    # comparing the raw values is the documented rule when null is one ordinary value: both null =>
+                    # equal raw values, exactly one null => different raw values
+                    continue
+                for L in (True, False):
+                    for R in (True, False):
+                        if any(x != L for x in Ls) or any(x != R for x in Rs):
+                            continue
+                        if L and R:
+                            if g != w:
+                                errs.append("both present: returns %s, expected %s" % (show(g) if g is not None else None, show(w)))
+                        else:
+                            want = (L == R) if op == "==" else (L != R)
+                            if g is None or not g.is_const() or bool(g.k) != want:
+                                errs.append("lhs %s, rhs %s: returns %s, documented result is %s"
+                                            % ("has value" if L else "null", "has value" if R else "null", show(g) if g is not None else None, want))
+            if errs:
+                chk.violation("OPT.eq", "operator" + op, where(f), "optional operator%s on %s [%s]: %s" % (op, T, lib.label, "; ".join(sorted(set(errs))[:3])))
             else:
-                chk.ok("OPT.eq", "eq%s<%s>@%s" % (op, T, lib.label.split()[1]), {"function": f["qn"][:100]})
+                chk.ok("OPT.eq", "eq%s<%s>@%s" % (op, D.split("::")[-1], lib.label.split()[1]), {"function": f["qn"][:100], "paths": len(s.live)})
     # has_value / operator bool / value_or / in_range / default construction
     tpl = "sbepp::detail::optional_base"
     for f in lib.fns(tpl, "has_value"):
         T = (f.get("cls_targs") or ["?"])[0]
         D = (f.get("cls_targs") or ["?", "?"])[1]
-        p = lib.summary(f).live[0]
         n += 1
-        nullf = lib.method(D, "null_value", nparams=0)
-        nv = None
-        if nullf is not None:
-            nv = lib.summary(nullf).live[0].ret
-        got = p.ret
+        nv = null_of(lib, D)
         key = "has_value<%s>" % D.split("::")[-1]
         if nv is None:
             chk.broke("null_value of %s not found" % D)
             continue
-        want = tcmp(T, "!=", sym("this.val"), nv)
-        is_fp = rint.clean(T) in ("float", "double")
         nan_null = any(a[0] == "call" and "quiet_NaN" in str(a[1]) for a in lin(nv).atoms()) if isinstance(nv, Lin) else False
-        if got is None or lin(got) != want:
-            chk.violation("OPT.null", "has_value", where(f), "has_value() of %s is %s, expected val != null_value() = %s" % (D, show(got), show(want)))
-        elif is_fp and nan_null:
+        errs = []
+        undecided_nan = False
+        for p in lib.summary(f).live:
+            pr = presence(p, "this", T, nv)
+            g = lin(p.ret) if p.ret is not None else None
+            if pr is None:
+                # the path returns a comparison itself instead of branching on it
+                want = tcmp(T, "!=", sym("this.val"), nv)
+                if g != want:
+                    errs.append("returns %s, expected val != null_value() = %s" % (show(g) if g is not None else None, show(want)))
+                elif is_fp(T) and nan_null:
+                    undecided_nan = True
+            elif g is None or not g.is_const() or bool(g.k) != pr:
+                errs.append("value is %s: returns %s" % ("present" if pr else "null", show(g) if g is not None else None))
+        if errs:
+            chk.violation("OPT.null", "has_value", where(f), "has_value() of %s: %s" % (D, "; ".join(sorted(set(errs))[:3])))
+        elif undecided_nan:
             chk.violation("OPT.null", "has_value:nan", where(f),
                           "has_value() of %s compares with `!=` against a NaN null value: NaN != NaN, so a default-constructed / "
                           "nullopt optional<%s> is never null and null == null is false" % (D, T))
         else:
-            chk.ok("OPT.null", key, {"null_value": show(nv)})
+            chk.ok("OPT.null", key, {"null_value": show(nv), "nan_null": nan_null})
     for f in lib.fns(tpl, "value_or"):
         n += 1
         s = lib.summary(f)
         errs = []
+        T_ = (f.get("cls_targs") or ["?"])[0]
+        nv_ = null_of(lib, (f.get("cls_targs") or ["?", "?"])[1])
         for p in s.live:
-            hv = null_atoms(p, "this")
+            hv = null_atoms(p, "this", T_, nv_)
             if not hv:
                 errs.append("value_or does not branch on has_value")
                 continue
@@ -205,8 +297,10 @@ def check_threeway(chk, lib):
         ps = f.get("params") or []
         if len(ps) != 2 or "optional_base" not in ps[0]["t"]:
             continue
-        T = ps[0]["t"].split("optional_base<")[1].split(",")[0]
-        D = ps[0]["t"].split("optional_base<")[1].split(",")[1].strip().rstrip(">").strip()
+        T, D = td_of(ps[0]["t"])
+        if null_of(lib, D) is None:
+            chk.broke("null_value of %s not found" % D)
+            continue
         try:
             s = lib.summary(f)
         except AnalysisBroken as e:
@@ -214,8 +308,9 @@ def check_threeway(chk, lib):
             continue
         n += 1
         errs = []
+        nullv = null_of(lib, D)
         for p in s.live:
-            Ls, Rs = null_atoms(p, "lhs"), null_atoms(p, "rhs")
+            Ls, Rs = null_atoms(p, "lhs", T, nullv), null_atoms(p, "rhs", T, nullv)
             both = Ls and Rs and all(Ls) and all(Rs)
             got = p.ret
             g = lin(got) if isinstance(got, Lin) else None
